@@ -105,6 +105,9 @@ pub struct Case {
     pub specifier: bool,
     pub deep_out: bool,
     pub stale: bool,
+    /// hidden files whose names match the patterns lie in the searched directories (editor drafts, OS artefacts):
+    /// the pattern expansion skips hidden entries, so they are not inputs
+    pub hidden: bool,
 }
 
 const COMMANDS: [&[&str]; 3] = [&["check"], &["generate"], &["check", "generate"]];
@@ -132,6 +135,7 @@ fn gen_case(c: &mut Chooser, slots: usize, base_command: usize) -> Case {
         specifier: c.flag("generate.schemaModuleSpecifier-only"),
         deep_out: c.flag("generate.nested-output-dir"),
         stale: c.flag("project.stale-outputs"),
+        hidden: c.flag("project.hidden-files-matching-the-patterns"),
     }
 }
 
@@ -198,6 +202,11 @@ fn build(case: &Case) -> Option<Built> {
         expected.insert(format!("{stem}.{}.map", MODES[case.mode].1));
     }
     project.files.insert("graphql.config.yaml".into(), y);
+    if case.hidden {
+        project.files.insert("src/.draft.graphql".into(), "query Draft { me { nope ".into());
+        project.files.insert("src/.wip/later.graphql".into(), "query Later { nothingHere }\n".into());
+        project.files.insert("schema/.old.graphql".into(), "type User { stale: Int }\ntype Query { old: Int }\n".into());
+    }
     if case.stale {
         // a file that generate must overwrite, one it must leave alone
         project.files.insert(format!("{out}/resolvers.d.ts"), "// stale\n".into());
@@ -561,8 +570,8 @@ pub fn run(args: &RunArgs) -> i32 {
             if !distinct.insert(fnv(format!("{case:?}").as_bytes())) {
                 return;
             }
-            // quick tier: lone-CR operation files take part in projects of up to two deviations
-            if args.quick() && c.deviations() >= 3 && case.crlf == 3 {
+            // quick tier: lone-CR operation files and hidden junk files take part in projects of up to two deviations
+            if args.quick() && c.deviations() >= 3 && (case.crlf == 3 || case.hidden) {
                 return;
             }
             // quick tier: the human rendering is compared for projects of up to two deviations; the machine-readable
@@ -746,9 +755,12 @@ fn part_history(args: &RunArgs, rep: &Reporter) -> J {
         EditTheConfiguration,
         /// the schema declaration file is edited by hand (it becomes newer than every input)
         TouchTheSchemaOutput,
+        /// the configuration's schema pattern is pointed at other files that have been lying in the project all along
+        /// (no schema file gets a newer modification time)
+        PointTheSchemaPatternElsewhere,
     }
     use Ev::*;
-    let alphabet = [DeleteMaps, DeleteDeclarations, DeleteAllOutputs, CommentLineOnInputs, BreakAnOperation, RepairTheOperation, TouchOneOutput, EditTheConfiguration, TouchTheSchemaOutput];
+    let alphabet = [DeleteMaps, DeleteDeclarations, DeleteAllOutputs, CommentLineOnInputs, BreakAnOperation, RepairTheOperation, TouchOneOutput, EditTheConfiguration, TouchTheSchemaOutput, PointTheSchemaPatternElsewhere];
     let depth = if args.quick() { 2 } else { 3 };
     let mut seqs: Vec<Vec<Ev>> = vec![];
     for len in 1..=depth {
@@ -761,7 +773,7 @@ fn part_history(args: &RunArgs, rep: &Reporter) -> J {
     let compared = AtomicU64::new(0);
     let modes: Vec<usize> = if args.quick() { vec![0] } else { vec![0, 1, 2] };
     for mode in modes {
-        let base_case = Case { faults: vec![], crlf: 0, command: 1, discover: false, mode, resolvers: true, server: true, runtime: false, specifier: false, deep_out: false, stale: false };
+        let base_case = Case { faults: vec![], crlf: 0, command: 1, discover: false, mode, resolvers: true, server: true, runtime: false, specifier: false, deep_out: false, stale: false, hidden: false };
         let Some(b) = build(&base_case) else { continue };
         let mut cmd = b.args.clone();
         let i = cmd.iter().position(|a| a.is_empty()).unwrap();
@@ -770,6 +782,11 @@ fn part_history(args: &RunArgs, rep: &Reporter) -> J {
             let seq = &seqs[si];
             let dir = cli::thread_dir("c18");
             let mut inputs = b.project.clone();
+            // a second set of schema files, not matched by the configured pattern: the same schema plus one more type
+            for (k, v) in b.project.files.iter().filter(|(k, _)| k.starts_with("schema/")) {
+                let extra = if k.ends_with("main.graphql") { "\n\"only in the alternative schema\"\ntype AltOnly { x: Int }\n" } else { "" };
+                inputs.files.insert(k.replacen("schema/", "alt/", 1), format!("{v}{extra}"));
+            }
             cli::materialize(&dir, &inputs);
             let mut last = cli::run(&dir, &cmd, &[], Duration::from_secs(60));
             runs.fetch_add(1, Ordering::Relaxed);
@@ -810,6 +827,12 @@ fn part_history(args: &RunArgs, rep: &Reporter) -> J {
                     EditTheConfiguration => {
                         for (_, v) in inputs.files.iter_mut().filter(|(k, _)| k.ends_with(".yaml")) {
                             *v = if v.contains("Date: string\n") { v.replace("Date: string\n", "Date: \"Date | string\"\n") } else { v.replace("Date: \"Date | string\"\n", "Date: string\n") };
+                        }
+                        cli::overwrite(&dir, &inputs);
+                    }
+                    PointTheSchemaPatternElsewhere => {
+                        for (_, v) in inputs.files.iter_mut().filter(|(k, _)| k.ends_with(".yaml")) {
+                            *v = if v.contains("./schema/*.graphql") { v.replace("./schema/*.graphql", "./alt/*.graphql") } else { v.replace("./alt/*.graphql", "./schema/*.graphql") };
                         }
                         cli::overwrite(&dir, &inputs);
                     }
